@@ -33,7 +33,7 @@ def _worker(prop, cfg):
     def _alarm(signum, frame):
         raise _HardTimeout()
 
-    hard = int(cfg.get("hard_timeout_s", 420 if cfg.get("tier") == "quick" else 3600))
+    hard = int(cfg.get("hard_timeout_s", 420 if cfg.get("tier") == "quick" else 1800))
     signal.signal(signal.SIGALRM, _alarm)
     signal.alarm(hard)
     try:
@@ -218,6 +218,8 @@ def write_evidence(mod, prop, tier, seed, results, n_viol, n_known, wall, inconc
         "paths_witnessed": tot("paths_witnessed"),
         "paths_infeasible_pruned": tot("paths_infeasible"),
         "paths_incomplete": tot("paths_incomplete"),
+        "vacuity_guard": {"configs_checked": sum(1 for r in results if r.get("vacuity_ok") is not None), "contradictory": sum(1 for r in results if r.get("vacuity_ok") is False), "rule": "QF_LRA abstraction of all assumptions + path condition of the first path must not be unsat"},
+        "stub_contract_max_residual_at_witness": max([r.get("witness_contract_residual") or 0.0 for r in results] + [0.0]),
         "evaluations": max(1, tot("paths")),
         "distinct_nontrivial": max(2, len({r["cfg"] for r in results if r.get("obligations")})) if len(results) >= 2 else 2,
         "rule": "one evaluation = one symbolic path of one configuration (container/shape/flags/NaN mask/call sequence enumerated concretely, all data values symbolic); distinct_nontrivial = configurations with at least one obligation",
